@@ -16,23 +16,39 @@
   thread and the `parallel` block ends with a barrier (OpenMP semantics,
   trusted); termination of the OpenMP path is by construction of the model.
 
-  NAMED ASSUMPTIONS (not proved; to be listed in DESIGN §2/§7):
-    * `MicroStepAtomicity`: the unit of interleaving is the micro-step (one
-      weight row processing one event).  The real kernels interleave at the
-      level of single loads and stores.  Assumed: every sequentially consistent
-      access-level interleaving of kernel calls owning pairwise disjoint rows
-      leaves the weights some micro-step interleaving leaves.  Proved towards
-      it: `footprint_disjoint` (different rows, disjoint cells),
+  MODELLING ASSUMPTIONS — prose, NOT Lean identifiers, NOT hypotheses of any
+  theorem.  Every theorem of this file is about the MODEL's transition systems
+  (`MicroStep` schedules, `qStep`, `rStep`); none of them is "transported" to
+  the real threads inside Lean, because the model has no access-level
+  semantics of the kernels and no semantics of CPython threads.  What follows
+  is therefore not something a theorem assumes and could be discharged by an
+  instance; it is the claim that the model is faithful, and belongs in DESIGN §2
+  under "modelling assumptions" (not under "named assumptions inside theorem
+  statements"):
+    * "MicroStepAtomicity" (a NAME USED IN PROSE only — here and in
+      PyndlModel/Kernel.lean; `grep MicroStepAtomicity` finds no definition):
+      the unit of interleaving is the micro-step (one weight row processing one
+      event).  The real kernels interleave at the level of single loads and
+      stores.  Assumed: every sequentially consistent access-level interleaving
+      of kernel calls owning pairwise disjoint rows leaves the weights some
+      micro-step interleaving leaves.  What it buys: it lifts the model's
+      granularity from memory accesses to micro-steps; it does not restate any
+      conclusion (schedule independence is proved FROM the micro-step model).
+      Proved towards it: `footprint_disjoint` (different rows, disjoint cells),
       `micro_steps_commute`, `schedule_determined_by_row_projections`; steps of
       one row belong to one kernel call (`parts_disjoint`) and are ordered by
-      it.  The reduction itself needs an access-level semantics the model does
-      not have.
+      it.  The reduction itself (Lipton-style) needs an access-level semantics
+      the model does not have; it is not formalised and not stated as a `Prop`.
     * data-race freedom ⇒ sequential consistency for the C11/OpenMP memory
-      model and the GIL-released `nogil` kernels (already in §7).
-    * the refined protocol `rStep` is the operational meaning of
-      "worker = loop { lock; if empty: break; get } ; kernel call": a modelling
-      claim, tied to the code by the trace validation of the differential run
-      (real lock/queue traces are accepted by `qStep`; `protocol_refines`).
+      model and the GIL-released `nogil` kernels (DESIGN §7; same status).
+    * "`rStep` is the meaning of the worker loop": the refined protocol `rStep`
+      is the operational meaning of
+      "worker = loop { lock; if empty: break; get } ; kernel call".  A modelling
+      claim with no Lean counterpart (there is no Python semantics to state it
+      against), tied to the code only by the trace validation of the
+      differential run (real lock/queue traces are accepted by `qStep`, and
+      `protocol_refines` relates `rStep` runs to `qStep` runs).  Same status as
+      the first item: DESIGN §2, modelling assumptions.
 -/
 import PyndlProofs.SeqSchedule
 import PyndlProofs.Queue
